@@ -1,6 +1,7 @@
 //! Correspondence harness of property C05 (foreign-field and big-integer gadgets).
 mod bounds;
 mod fieldrun;
+mod gates;
 mod prog;
 mod rec;
 mod sets;
